@@ -135,22 +135,26 @@ Qed.
 (* the inputs of a case are well-formed when the flow values listed as issued belong to started
    flows, started flows have real (non-empty) ids, and every recorded URI (and the empty string)
    comes out of http.Redirect on the request's host: the last is C06_same_site plus the oracle *)
-Definition wf_inputs (started : list flow) (issued : list sealed) (redir : list (str * str)) (host : str) : Prop :=
-  (forall k n f, In (Seal k n (PFlow f)) issued -> In f started) /\
-  (forall f, In f started -> f_sid f <> 0) /\
-  (forall f, In f started -> on_host host (redir_tab redir (f_redirect f)) = true) /\
-  on_host host (redir_tab redir []) = true.
+Definition wf_inputs (starts : list started) (issued : list sealed) (redir : list (str * str)) (host : str) : Prop :=
+  (* every flow value listed as issued was produced by one of the listed OAuthStart runs *)
+  (forall k n f, In (Seal k n (PFlow f)) issued ->
+     exists e, In e starts /\ st_flow e = f /\ produced_by e (Seal k n (PFlow f)) = true) /\
+  (forall e, In e starts -> f_sid (st_flow e) <> 0) /\
+  (forall e, In e starts -> on_host host (redir_tab redir (f_redirect (st_flow e))) = true) /\
+  on_host host (redir_tab redir []) = true /\
+  (* freshness: different OAuthStart runs drew different flow ids (Callback_proofs.started_flows_distinct) *)
+  (forall e e', In e starts -> In e' starts -> f_sid (st_flow e) = f_sid (st_flow e') -> e = e').
 
-Lemma flow_model_judged canon strict started issued r redir o :
-  wf_inputs started issued redir (cb_host r) ->
+Lemma flow_model_judged canon strict starts issued r redir o :
+  wf_inputs starts issued redir (cb_host r) ->
   flow_mismatch canon strict r redir o = false ->
-  let j := judge (CFlow canon strict started issued r redir o) in
+  let j := judge (CFlow canon strict starts issued r redir o) in
   j = 0 \/ (j = 101 /\ canon = false) \/ (j = 102 /\ strict = false).
 Proof.
-  intros [W1 [W2 [W3 W4]]] Hm. cbn [judge]. rewrite Hm. unfold code.
+  intros [W1 [W2 [W3 [W4 W5]]]] Hm. cbn [judge]. rewrite Hm. unfold code.
   unfold flow_mismatch in Hm. apply orb_false_iff in Hm as [Hrc Hm]. apply negb_false_iff in Hrc.
   apply eqb_prop in Hrc.
-  destruct (flow_holds started issued r redir o) eqn:Hh; [left; reflexivity|]. right.
+  destruct (flow_holds starts issued r redir o) eqn:Hh; [left; reflexivity|]. right.
   unfold flow_holds in Hh. apply orb_false_iff in Hh as [Hd Hh]. apply negb_false_iff in Hd.
   unfold flow_known. destruct (fo_session o) as [s|] eqn:Es; [|discriminate].
   destruct (oauth_callback canon strict PROXY_KEY r) as [st|s' loc] eqn:Ecb.
@@ -173,15 +177,21 @@ Proof.
                    match cb_redeem r with RedeemOk e => str_eqb (s_email s) e | RedeemErr => false end = true).
   { rewrite Hr, Hsv. cbn [s_upstream s_email]. rewrite !str_eqb_refl. reflexivity. }
   unfold sig_noncanonical, sig_type_confusion, clauses, all_clauses in *. rewrite Hs, Hc in *. cbn [spelled] in *.
-  cbn [k_sealed_by_proxy k_distinct_cipher k_same_record k_started_flow k_redeemed k_validated k_bound_to_host
+  cbn [k_sealed_by_proxy k_distinct_cipher k_same_record k_started_flow k_own_start k_redeemed k_validated k_bound_to_host
        k_location_recorded k_location_same_site] in *.
   rewrite Kseal, Kred, Kbound, Hv in *. cbn [andb] in *.
   destruct p1 as [f1|s1], p2 as [f2|s2]; cbn [json_into_state payload_flow] in *.
   - (* two flow values of the same record *)
-    subst f2. assert (Hin : In f1 started) by (eapply W1; exact Hi1).
+    subst f2.
+    destruct (W1 _ _ _ Hi1) as [e1 [Hin1 [Hfe1 Hp1]]]. destruct (W1 _ _ _ Hi2) as [e2 [Hin2 [Hfe2 Hp2]]].
+    assert (e2 = e1) by (apply W5; [assumption | assumption | congruence]). subst e2.
+    assert (Hin : In f1 (started_flows starts)) by (unfold started_flows; rewrite <- Hfe1; apply in_map; exact Hin1).
     assert (flow_eqb f1 f1 = true) as Hff by (apply flow_eqb_eq; reflexivity).
-    assert (flow_in f1 started = true) as Hfi by (apply flow_in_In; exact Hin).
-    rewrite Hff, Hfi in *. rewrite <- Hloc, Hl in *. rewrite str_eqb_refl in *. rewrite (W3 f1 Hin) in *.
+    assert (flow_in f1 (started_flows starts) = true) as Hfi by (apply flow_in_In; exact Hin).
+    assert (Hown : existsb (fun e => produced_by e (Seal PROXY_KEY n1 (PFlow f1)) && produced_by e (Seal PROXY_KEY n2 (PFlow f1))) starts = true).
+    { apply existsb_exists. exists e1. split; [exact Hin1 | rewrite Hp1, Hp2; reflexivity]. }
+    assert (Hon : on_host (cb_host r) (redir_tab redir (f_redirect f1)) = true) by (rewrite <- Hfe1; apply W3; exact Hin1).
+    rewrite Hff, Hfi, Hown in *. rewrite <- Hloc, Hl in *. rewrite str_eqb_refl in *. rewrite Hon in *.
     cbn [andb] in *. rewrite !andb_true_r in *.
     (* only "different ciphertexts" can have failed *)
     apply negb_false_iff in Hh. rewrite Hh. cbn [negb andb].
@@ -190,8 +200,8 @@ Proof.
     + cbn [negb andb]. assert (N.eqb v1 v2 = false) as ->.
       { apply N.eqb_neq. intros ->. apply sealed_eqb_eq in Hh. apply Hne. rewrite Hh. reflexivity. }
       left. split; reflexivity.
-  - exfalso. subst f1. apply (W2 empty_flow); [eapply W1; exact Hi1 | reflexivity].
-  - exfalso. subst f2. apply (W2 empty_flow); [eapply W1; exact Hi2 | reflexivity].
+  - exfalso. subst f1. destruct (W1 _ _ _ Hi1) as [e [Hin [Hfe _]]]. apply (W2 e Hin). rewrite Hfe. reflexivity.
+  - exfalso. subst f2. destruct (W1 _ _ _ Hi2) as [e [Hin [Hfe _]]]. apply (W2 e Hin). rewrite Hfe. reflexivity.
   - (* two sealed sessions: the type confusion *)
     rewrite !andb_false_r. cbn [negb andb]. rewrite <- Hloc, Hl. cbn [empty_flow f_redirect].
     rewrite str_eqb_refl, W4. right. split; [reflexivity|].
